@@ -15,6 +15,7 @@ EXPLANATION = (
     "advances the cluster by that amount; the parent records flag_subcmd_skip only together with the backward seek. "
     "R9.6 (shared with C08) the recognisers behind find_subcommand / find_short_subcmd / find_long_subcmd answer to the primary name or flag or ANY alias on every path. R9.7 parse_long_arg checks for a long flag-subcommand before the positional allow_hyphen_values fallback. R9.5b the remembered flag-subcommand position does not outlive its cluster: parse_short_arg clears flag_subcmd_at when it starts a cluster it is not resuming (skip == 0), before walking the flags — otherwise a later flag subcommand computes its resume offset from a stale position. R9.5c the resume offset covers the whole cluster: the position it is counted from is fixed before the first flag of the cluster is processed, not when the flag subcommand is met (flags in front of it, as in `-vSyu`, must be skipped by the sub-parser too). R9.8 the subcommand lookup for a token is skipped exactly in the states Opt and Pos (unless subcommand_precedence_over_arg). NOT decided: agreement of values at every level for all trees (needs execution)."
     ' R9.2 (added): the same tie rule when the comparison sits in a closure (operator/side table).'
+    ' R9.5 (tightened): flag_subcmd_at is cleared on the (flag subcommand found, cluster exhausted) edge.'
 )
 TRUSTED = ["rustc MIR", "clapfacts"]
 ASSUMPTIONS = ["FlatMap::insert replaces an existing entry"]
